@@ -18,9 +18,12 @@ CONSTANTS Keys,    \* set of key codes
           RGaps,   \* set of tick gaps between releases
           Other,   \* {} or {code}: an extra (non-chord or foreign) key pressed once somewhere in the press phase
           MinSize, \* only subsets with at least this many keys
+          AllRel,  \* TRUE: every release order; FALSE: only the press order and its reverse
           TailT     \* ticks appended at the end
 
 Perms(S) == {f \in [1..Cardinality(S) -> S] : \A i, j \in DOMAIN f : i # j => f[i] # f[j]}
+RelOrders(po) == IF AllRel THEN Perms({po[i] : i \in DOMAIN po})
+                 ELSE {po, [i \in DOMAIN po |-> po[Len(po) + 1 - i]]}
 GapVecs(n, G) == [1..(IF n > 0 THEN n - 1 ELSE 0) -> G]
 
 RECURSIVE Inter(_, _, _, _)
@@ -39,7 +42,7 @@ InterO(f, g, i, pos, o) ==
 Tk(n) == IF n > 0 THEN <<<<"t", n>>>> ELSE <<>>
 
 ASSUME \A po \in UNION {Perms(S) : S \in {X \in SUBSET Keys : Cardinality(X) >= MinSize}} :
-         \A g \in GapVecs(Len(po), Gaps) : \A h \in Hold : \A ro \in Perms({po[i] : i \in DOMAIN po}) :
+         \A g \in GapVecs(Len(po), Gaps) : \A h \in Hold : \A ro \in RelOrders(po) :
            \A rg \in GapVecs(Len(po), RGaps) :
              /\ PrintT(<<"SCHED", ToJson(Inter("d", po, g, 1) \o Tk(h) \o Inter("u", ro, rg, 1) \o Tk(TailT))>>)
              /\ \A o \in Other : \A pos \in 1..(Len(po) + 1) :
